@@ -14,6 +14,7 @@ import sys
 import time
 
 ROOT = os.path.dirname(os.path.dirname(os.path.abspath(__file__)))
+os.environ["VERIF_EVIDENCE_DIR"] = os.path.join(ROOT, "build", "seed-evidence")
 
 
 def sh(cmd, cwd, env=None, timeout=3600):
